@@ -78,6 +78,17 @@ def run(rep, tier):
                     ops_.check_pointer_arith(_RV(rep, {"R-C05-check": "R-C03-index", "R-C05-stride": "R-C03-index"}), db, f, "%s | %s" % (db.label, f["full"][:150]), db.label)
                 except Inconclusive as ex:
                     rep.inconclusive("R-C03-index", site(f), str(ex), "%s | %s" % (db.label, f["full"][:150]))
+    rep.rule("R-C03-derived", "the compound and stepping forms of tainted pointer arithmetic (+=, -=, ++, --) are the checked binary operator applied once and assigned back: a form that updates the raw pointer "
+             "in place moves a tainted pointer anywhere without the same-sandbox check (shared analysis with C05's R-C05-derived)")
+    for db in dbs:
+        for f in db.functions:
+            if f["dep"] or "body" not in f or not f["n"].startswith(ops_.BASE) or (ops_.class_T(f) or {}).get("k") != "ptr":
+                continue
+            if f.get("oo") in ("+=", "-=", "++", "--"):
+                try:
+                    ops_.check_derived(_RV(rep, {"R-C05-derived": "R-C03-derived"}), "C05", db, f, "%s | %s" % (db.label, f["full"][:150]))
+                except Inconclusive as ex:
+                    rep.inconclusive("R-C03-derived", site(f), str(ex), "%s | %s" % (db.label, f["full"][:150]))
     rep.rule("R-C03-array", "a whole array of pointers is converted element by element with every destination element written (null to null, everything else through the backend translation): an element that is "
              "skipped keeps whatever the destination held - an uninitialised tainted pointer (shared analysis with C04's R-C04-route)")
     from ..report import RuleView
